@@ -594,6 +594,48 @@ fn has_inner_limit(q: &rg::Q, root: bool) -> bool {
     }
 }
 fn e_has_limit(e: &rg::E) -> bool { format!("{e:?}").contains("Limit(") }
+/// the same question asked of the (fully parenthesised) SQL text of the query: a parenthesised group that is `NOT ...`, `... IS [NOT] NULL` or
+/// `... [NOT] IN (...)` standing next to a comparison operator (HAVING / ORDER BY repeat group keys as text, which the AST walk does not see)
+fn sql_has_bare_operand(sql: &str) -> bool {
+    let b = sql.as_bytes();
+    let ops = [" = ", " <> ", " < ", " <= ", " > ", " >= ", " IS DISTINCT FROM ", " IS NOT DISTINCT FROM "];
+    let mut stack: Vec<usize> = vec![];
+    for i in 0..b.len() {
+        if b[i] == b'(' { stack.push(i); }
+        if b[i] == b')' {
+            if let Some(st) = stack.pop() {
+                let inner = &sql[st + 1..i];
+                // top level of the group
+                let mut depth = 0i32; let mut top = String::new();
+                for ch in inner.chars() { if ch == '(' { depth += 1; } if depth == 0 { top.push(ch); } if ch == ')' { depth -= 1; } }
+                let bare = top.starts_with("NOT ") || top.ends_with(" IS NULL") || top.ends_with(" IS NOT NULL") || top.ends_with(" IN ") || top.contains(" IN  ") ;
+                let bare = bare || (inner.contains(" IN (") && top.trim_end().ends_with(" IN"));
+                if bare {
+                    let before = &sql[..st]; let after = &sql[i + 1..];
+                    if ops.iter().any(|o| before.ends_with(o) || after.starts_with(o)) { return true; }
+                }
+            }
+        }
+    }
+    false
+}
+fn q_any(q: &rg::Q, f: &dyn Fn(&rg::Q) -> bool) -> bool {
+    use rg::Q;
+    f(q) || match q {
+        Q::Table(_) | Q::Values(..) => false,
+        Q::Filter(_, c) | Q::Project(_, c) | Q::Distinct(c) | Q::Sort(_, c) | Q::Limit(_, _, c) | Q::Group(_, _, _, c) => q_any(c, f),
+        Q::Join(_, _, a, b) | Q::Semi(_, _, a, b) | Q::SetOp(_, _, a, b) => q_any(a, f) || q_any(b, f),
+    }
+}
+/// GROUP BY that lists the same key twice
+fn q_has_dup_group_keys(q: &rg::Q) -> bool {
+    q_any(q, &|q| if let rg::Q::Group(ks, ..) = q { let t: Vec<String> = ks.iter().map(|k| format!("{k:?}")).collect(); (0..t.len()).any(|i| t[..i].contains(&t[i])) } else { false })
+}
+/// UNION and UNION ALL nested in one another
+fn q_has_mixed_unions(q: &rg::Q) -> bool {
+    q_any(q, &|q| if let rg::Q::SetOp(rg::SetOp::Union, all, a, b) = q {
+        [a, b].iter().any(|c| matches!(c.as_ref(), rg::Q::SetOp(rg::SetOp::Union, all2, ..) if all2 != all)) } else { false })
+}
 fn q_has_setop(q: &rg::Q) -> bool { let s = format!("{q:?}"); s.contains("SetOp(Intersect") || s.contains("SetOp(Except") }
 /// does some expression of the query have NOT / IS NULL / IN (the forms the unparser writes without parentheses) as a direct operand of
 /// an operator that binds tighter in the re-parser (comparison, arithmetic, BETWEEN, IN, IS NULL, IS DISTINCT FROM)?
@@ -624,23 +666,28 @@ fn root_sort_keys(q: &rg::Q) -> Option<Vec<usize>> {
 fn rows_json(rows: &[Vec<String>]) -> String { format!("[{}]", rows.iter().take(60).map(|r| format!("[{}]", r.join(","))).collect::<Vec<_>>().join(",")) }
 
 /// what the comparison needs to know about a query
-struct QInfo { keys: Option<Vec<usize>>, is_limit: bool, inner_limit: bool, setop: bool, bare: bool }
+struct QInfo { keys: Option<Vec<usize>>, is_limit: bool, inner_limit: bool, setop: bool, bare: bool, dup_group: bool, mixed_unions: bool }
 fn plan_case(id: u64, stream: &str, tabs: &[rg::Tab], q: &rg::Q, optimized: bool) {
     let widths: Vec<usize> = tabs.iter().map(|t| t.types.len()).collect();
     let sql0 = rg::to_sql(q, &widths);
-    let info = QInfo { keys: root_sort_keys(q), is_limit: matches!(q, rg::Q::Limit(..)), inner_limit: has_inner_limit(q, true), setop: q_has_setop(q), bare: q_has_bare_operand(q) };
+    let info = QInfo { keys: root_sort_keys(q), is_limit: matches!(q, rg::Q::Limit(..)), inner_limit: has_inner_limit(q, true), setop: q_has_setop(q), bare: q_has_bare_operand(q) || sql_has_bare_operand(&sql0),
+        dup_group: q_has_dup_group_keys(q), mixed_unions: q_has_mixed_unions(q) };
     plan_case_sql(id, stream, tabs, sql0, info, optimized)
 }
 fn plan_case_sql(id: u64, stream: &str, tabs: &[rg::Tab], sql0: String, info: QInfo, optimized: bool) {
     let rt = tokio::runtime::Builder::new_multi_thread().worker_threads(2).enable_all().build().unwrap();
     let (tabs2, sql02) = (tabs.to_vec(), sql0.clone());
-    let QInfo { keys, is_limit, inner_limit, setop, bare } = info;
+    let QInfo { keys, is_limit, inner_limit, setop, bare, dup_group, mixed_unions } = info;
     let pfx = if optimized { "plan-optimized" } else { "plan" };
     // class key of a failing plan: the known expression-level defect inside a plan; the set-operation defects; optimized plans coarsely; else stage + message
-    let key_of = move |stage: &str, msg: &str, why: &str| -> String {
+    let key_of = move |stage: &str, msg: &str, why: &str, no_columns: bool| -> String {
         if optimized { return format!("plan-optimized:{}", if stage == "compared" { "different-result" } else { "text-does-not-plan-again" }); }
         if bare { return "plan:contains-expression-with-unparenthesised-operand".to_string(); }
+        if dup_group { return "plan:duplicate-group-by-key-aggregate-misprinted".to_string(); }
+        if setop && no_columns { return "plan:intersect-except-over-union-empty-select-list".to_string(); }
+        if mixed_unions && stage == "compared" && why == "rows" { return "plan:nested-union-all-written-as-union".to_string(); }
         if setop && stage == "compared" && why == "rows" { return "plan:intersect-except-null-equality-lost".to_string(); }
+        if setop && stage == "rerun" && msg.contains("compare arrays of different types") { return "plan:intersect-except-written-as-exists-without-coercion".to_string(); }
         if setop && stage == "replan" && (msg.contains("No field named left.") || msg.contains("No field named \"left\".")) { return "plan:intersect-except-under-alias-dangling-left-qualifier".to_string(); }
         if stage == "compared" { format!("{pfx}:different-{why}") } else { format!("{pfx}:{stage}:{}", msg_class(msg)) }
     };
@@ -666,7 +713,7 @@ fn plan_case_sql(id: u64, stream: &str, tabs: &[rg::Tab], sql0: String, info: QI
             // text that does not plan / run again is a failure
             let ok = !matches!(stage, "replan" | "rerun") || msg == "timeout";
             println!("{head},\"sql1\":{},\"stage\":\"{stage}\",\"msg\":{},\"ok\":{ok},\"key\":{}}}", json_str(&sql1), json_str(&msg),
-                json_str(&key_of(stage, &msg, "")));
+                json_str(&key_of(stage, &msg, "", false)));
         }
         Ok(Ok((sql1, o0, o1))) => {
             let mut why = String::new();
@@ -686,7 +733,7 @@ fn plan_case_sql(id: u64, stream: &str, tabs: &[rg::Tab], sql0: String, info: QI
             println!("{head},\"sql1\":{},\"stage\":\"compared\",\"names0\":[{}],\"names1\":[{}],\"rows0\":{},\"rows1\":{},\"nrows\":{},\"why\":\"{why}\",\"ok\":{ok},\"key\":{}}}",
                 json_str(&sql1), o0.names.iter().map(|s| json_str(s)).collect::<Vec<_>>().join(","), o1.names.iter().map(|s| json_str(s)).collect::<Vec<_>>().join(","),
                 if ok { "null".to_string() } else { rows_json(&o0.rows) }, if ok { "null".to_string() } else { rows_json(&o1.rows) }, o0.rows.len(),
-                json_str(&key_of("compared", "", &why)));
+                json_str(&key_of("compared", "", &why, o1.names.is_empty())));
         }
     }
 }
@@ -757,22 +804,27 @@ fn main() {
     let wt = vec![rg::Tab { types: vec![rg::Ty::Int, rg::Ty::Int, rg::Ty::Bool], parts: 1, rows: vec![
         vec![rg::V::I(1), rg::V::I(2), rg::V::B(true)], vec![rg::V::Null, rg::V::I(1), rg::V::B(false)], vec![rg::V::I(2), rg::V::Null, rg::V::Null],
         vec![rg::V::Null, rg::V::Null, rg::V::B(true)], vec![rg::V::I(1), rg::V::I(1), rg::V::B(false)]] }];
-    let plan_w: Vec<(&str, &str, bool, bool, bool)> = vec![
-        // (name, sql, optimized, has INTERSECT/EXCEPT, has an unparenthesised operand)
-        ("plan:expression", "SELECT a1.c0 AS r0 FROM t0 AS a1 WHERE (a1.c2 = (a1.c2 IS NULL))", false, false, true),
-        ("plan:intersect-null", "(SELECT a1.c0 AS r0 FROM t0 AS a1) INTERSECT (SELECT a2.c0 AS r0 FROM t0 AS a2)", false, true, false),
-        ("plan:except-under-alias", "SELECT a1.x AS r0 FROM ((SELECT a2.c0 AS x FROM t0 AS a2) EXCEPT (SELECT a3.c1 AS x FROM t0 AS a3)) AS a1", false, true, false),
-        ("plan-optimized:replan", "SELECT a1.c0 AS r0 FROM t0 AS a1 WHERE (a1.c1 >= a1.c0)", true, false, false),
-        ("plan-optimized:result", "(SELECT a1.c0 AS r0 FROM t0 AS a1) EXCEPT ALL (SELECT a2.c1 AS r0 FROM t0 AS a2)", true, true, false),
+    let plan_w: Vec<(&str, &str, bool, u8)> = vec![
+        // (name, sql, optimized, feature: 1 INTERSECT/EXCEPT, 2 unparenthesised operand, 3 duplicate GROUP BY key, 4 UNION inside UNION ALL, 5 = 1 + union input)
+        ("plan:expression", "SELECT a1.c0 AS r0 FROM t0 AS a1 WHERE (a1.c2 = (a1.c2 IS NULL))", false, 2),
+        ("plan:intersect-null", "(SELECT a1.c0 AS r0 FROM t0 AS a1) INTERSECT (SELECT a2.c0 AS r0 FROM t0 AS a2)", false, 1),
+        ("plan:except-under-alias", "SELECT a1.x AS r0 FROM ((SELECT a2.c0 AS x FROM t0 AS a2) EXCEPT (SELECT a3.c1 AS x FROM t0 AS a3)) AS a1", false, 1),
+        ("plan:except-over-union", "((SELECT a1.c0 AS r0 FROM t0 AS a1) UNION ALL (SELECT a2.c1 AS r0 FROM t0 AS a2)) EXCEPT ALL (SELECT a3.c0 AS r0 FROM t0 AS a3)", false, 1),
+        ("plan:union-in-union-all", "((SELECT a1.c0 AS r0 FROM t0 AS a1) UNION (SELECT a2.c0 AS r0 FROM t0 AS a2)) UNION ALL (SELECT a3.c1 AS r0 FROM t0 AS a3)", false, 4),
+        ("plan:intersect-without-coercion", "((SELECT (CASE WHEN (a1.c1 = a1.c0) THEN 'a' WHEN (a1.c1 < a1.c1) THEN CAST(NULL AS VARCHAR) ELSE 'a' END) AS r0 FROM t0 AS a1) UNION (SELECT 'b' AS r0 FROM t0 AS a2)) INTERSECT (SELECT COALESCE('', 'b', 'b') AS r0 FROM t0 AS a3)", false, 1),
+        ("plan:duplicate-group-key", "SELECT a2.c2 AS x0, a2.c2 AS x1, count(*) AS x2 FROM t0 AS a2 GROUP BY a2.c2, a2.c2", false, 3),
+        ("plan-optimized:replan", "SELECT a1.c0 AS r0 FROM t0 AS a1 WHERE (a1.c1 >= a1.c0)", true, 0),
+        ("plan-optimized:result", "(SELECT a1.c0 AS r0 FROM t0 AS a1) EXCEPT ALL (SELECT a2.c1 AS r0 FROM t0 AS a2)", true, 1),
     ];
     let psql = arg(&args, "--plan-probe", "");
     if !psql.is_empty() {
-        for opt in [false, true] { plan_case_sql(0, "probe", &wt, psql.clone(), QInfo { keys: None, is_limit: false, inner_limit: false, setop: psql.contains("INTERSECT") || psql.contains("EXCEPT"), bare: false }, opt); }
+        for opt in [false, true] { plan_case_sql(0, "probe", &wt, psql.clone(), QInfo { keys: None, is_limit: false, inner_limit: false, setop: psql.contains("INTERSECT") || psql.contains("EXCEPT"), bare: false, dup_group: false, mixed_unions: false }, opt); }
         return;
     }
     if want("witness") {
-        for (k, (name, sql, opt, setop, bare)) in plan_w.into_iter().enumerate() {
-            plan_case_sql(1_000_100 + k as u64, &format!("witness:{name}"), &wt, sql.to_string(), QInfo { keys: None, is_limit: false, inner_limit: false, setop, bare }, opt);
+        for (k, (name, sql, opt, feat)) in plan_w.into_iter().enumerate() {
+            plan_case_sql(1_000_100 + k as u64, &format!("witness:{name}"), &wt, sql.to_string(),
+                QInfo { keys: None, is_limit: false, inner_limit: false, setop: feat == 1, bare: feat == 2, dup_group: feat == 3, mixed_unions: feat == 4 }, opt);
         }
     }
     let mut rng = Rng::new(seed);
